@@ -417,6 +417,12 @@ fn machine(host: &mut Host, name: &str, op: &Value) -> Result<Option<Value>, Str
             if let Some(p) = perf {
                 sc62015_core::llama::eval::set_perf_instr_counter(p);
             }
+            // the timer's mirrors of IMR/ISR (diagnostics kept next to the real registers in internal memory)
+            if let Some(m) = op.get(7).and_then(|x| x.as_array()) {
+                let rt = mach(host, slot)?;
+                rt.timer.irq_imr ^= m.get(0).and_then(|x| x.as_u64()).unwrap_or(0) as u8;
+                rt.timer.irq_isr ^= m.get(1).and_then(|x| x.as_u64()).unwrap_or(0) as u8;
+            }
             Ok(None)
         }
         "save" => {
